@@ -51,6 +51,8 @@ if what in ("seeds", "all"):
         r = run(os.path.join(d, "patch.diff"), props, True)
         res[name] = {"summary": meta.get("summary", "")[:300], "needs": meta.get("needs_to_manifest", "")[:300], **r}
         print(name, {k: v["detected"] for k, v in r.get("checks", {}).items()}, "baseline", r.get("baseline_77_pass"), flush=True)
+        if OUT:
+            json.dump({k: v for k, v in res.items() if k in only}, open(OUT + ".seeds.json", "w"), indent=1)  # (partial results survive an interrupted run)
     json.dump(res if not OUT else {k: v for k, v in res.items() if k in only}, open(OUT + ".seeds.json" if OUT else os.path.join(V, "seeded", "RESULTS.json"), "w"), indent=1)
 if what in ("mutants", "all"):
     res = load(os.path.join(V, "mutants", "RESULTS.json"))
